@@ -398,11 +398,19 @@ impl<S3, NI> MultiLane<[u64; 2]> for u64x2_sse2<S3, NoS4, NI> {
 impl<S3, S4, NI> MultiLane<[u128; 1]> for u128x1_sse2<S3, S4, NI> {
     #[inline(always)]
     fn to_lanes(self) -> [u128; 1] {
-        unimplemented!()
+        unsafe {
+            let lo = _mm_cvtsi128_si64(self.x) as u64;
+            let hi = _mm_cvtsi128_si64(_mm_srli_si128(self.x, 8)) as u64;
+            [((hi as u128) << 64) | lo as u128]
+        }
     }
     #[inline(always)]
     fn from_lanes(xs: [u128; 1]) -> Self {
-        unimplemented!("{:?}", xs)
+        unsafe {
+            let x = _mm_cvtsi64_si128(xs[0] as u64 as i64);
+            let y = _mm_slli_si128(_mm_cvtsi64_si128((xs[0] >> 64) as u64 as i64), 8);
+            Self::new(_mm_or_si128(x, y))
+        }
     }
 }
 
